@@ -301,6 +301,11 @@ func FSCleanup() {
 	}
 }
 
+// FSCrashAfter arms a crash point in the engine's file-system model: after n
+// more mutations the next mutating call does not happen and the "process" dies
+// with a panic that the harness recovers (n < 0 disarms). No effect natively.
+func FSCrashAfter(n int) {}
+
 func FSMkdir(path string) {
 	if err := os.MkdirAll(path, 0o755); err != nil {
 		panic(err)
